@@ -61,7 +61,8 @@ def level1(ctx):
         tops = u['tops']
         configs = [(w, c) for w in u['widths'] for c in u['conts']]
         ctx.cover['level1_universe_cases'] = len(tops) * len(configs)
-        budget = int(os.environ.get('C04_L1_BUDGET', '0')) or None
+        # quick: a seeded sample of the quick universe; thorough: the complete thorough universe
+        budget = int(os.environ.get('C04_L1_BUDGET', '0')) or (600 if ctx.quick else None)
         if budget and len(tops) > budget:
             tops = ctx.rng.sample(tops, budget)
     cases, raised = [], []
@@ -119,8 +120,10 @@ def gen_programs(ctx, n):
     from .. import lib_fm_long as G
     out = []
     for i in range(n):
-        g = G.LongGen(ctx.rng, FEATURES)
-        prog = g.program(nstmts=ctx.rng.randint(6, 12), depth=2, nest_levels=ctx.rng.choice([0, 0, 5, 12, 24]))
+        # every other program without apostrophes in literal values: the first token difference of a text is reported,
+        # and the split of literals with doubled quotes would hide the other constructs
+        g = G.LongGen(ctx.rng, FEATURES, apostrophes=(i % 2 == 0))
+        prog = g.program(nstmts=ctx.rng.randint(4, 10), depth=2, nest_levels=[0, 5, 12, 24][(i // 2) % 4], showcase=True)
         out.append(G.long_program_text(prog, ctx.rng))
     return out
 
@@ -157,7 +160,7 @@ def level2(ctx):
     elif ctx.replay:
         return
     else:
-        texts = gen_programs(ctx, 24 if ctx.quick else 400)
+        texts = gen_programs(ctx, int(os.environ.get('C04_L2_N', '0')) or (6 if ctx.quick else 120))
     styles = [('default', FortranStyle, 132), ('ifs', IFSFortranStyle, 132)]
     if not ctx.quick:
         styles.append(('default-w80', lambda **kw: FortranStyle(**{'linewidth': 80, **kw}), 80))
